@@ -184,6 +184,17 @@ def region_bnds(S, cfg):
     a = S.pos('b1', 0.1, 0.9)
     b = S.pos('b2', 0.1, 0.9)
     r.power = {}
+    pw = []
+    if cfg.get('power'):
+        # user power of two assemblies with DIFFERENT axial power cells (bounds in cm, as power._from_file stores them)
+        dt = object if S.mode == 'sym' else float
+        p1 = S.pos('p1', 0.1, 0.9)
+        p2 = S.pos('p2', 0.1, 0.9)
+        S.assume(p1 < L, 'power cell bound below core top')
+        S.assume(p2 < L, 'power cell bound below core top')
+        pw = [('p1', p1), ('p2', p2)]
+        r.power['user'] = [(1, {'zfm': np.array([0, p1 * 100, L * 100], dtype=dt)}),
+                           (2, {'zfm': np.array([0, p2 * 100, L * 100], dtype=dt)})]
     r._options = {'axial_plane': [b] if cfg.get('plane') else None}
     inp = _Inp({'Assembly': {'fuel': {'AxialRegion': {'lower': {'z_lo': 0.0, 'z_hi': a},
                                                        'rods': {'z_lo': a, 'z_hi': L}}}}})
@@ -203,7 +214,7 @@ def region_bnds(S, cfg):
         for i in range(len(bn)):
             S.holds(f'bnds.on_grid[{i}]', _is_int_valued(bn[i] * GRID) if isinstance(bn[i], Sym) else True)
         # every input boundary is present after rounding
-        for nm, v in (('a', a),) + ((('b', b),) if cfg.get('plane') else ()):
+        for nm, v in (('a', a),) + ((('b', b),) if cfg.get('plane') else ()) + tuple(pw):
             ok = None
             for x in bn:
                 t = ((x - v) <= half) & ((v - x) <= half)
@@ -219,7 +230,7 @@ def configs(tier):
            (loop_body, dict(n_bounds=3, req='user')),
            (loop_prefix, dict()),
            (mesh_req, dict(user='none')), (mesh_req, dict(user='given')),
-           (region_bnds, dict(plane=False)), (region_bnds, dict(plane=True))]
+           (region_bnds, dict(plane=False)), (region_bnds, dict(plane=True)), (region_bnds, dict(plane=False, power=True))]
     if tier == 'thorough':
         out += [(loop_body, dict(n_bounds=4, req='user')), (loop_body, dict(n_bounds=5, req='grid'))]
     return out
